@@ -1,7 +1,8 @@
 (** C03 — Flattening approximates every curve within the requested tolerance.
     Property theorems only; each is closed by [exact] of a lemma proved elsewhere. *)
 From Coq Require Import QArith List Bool.
-From CV Require Import Base.Dy Flat.Curves Flat.CurvesProofs Flat.Cert Flat.CertProofs Flat.StepRule.
+From CV Require Import Base.Dy Flat.Curves Flat.CurvesProofs Flat.Cert Flat.CertProofs Flat.StepRule
+  Flat.Arc Flat.ArcProofs Flat.XMono Flat.XMonoProofs Flat.ConicProofs.
 Import ListNotations.
 Open Scope Q_scope.
 
@@ -104,3 +105,71 @@ Theorem C03_flatten_step_rule_refuted :
     forall lam, sqr (499 * tol) < dist2 (quadB p0 p1 p2 (1 # 2)) (lerp p0 p2 lam).
 Proof. exact flatten_step_rule_refuted. Qed.
 Print Assumptions C03_flatten_step_rule_refuted.
+
+(** exactly collinear cubic pieces: the subdivision certificate used inside [chk_flat_cube] ([cube_pb2]) is sound *)
+Theorem C03_collinear_piece_sound : forall q0 q1 q2 q3 B sg, 0 <= B -> 0 <= sg -> sg <= 1 ->
+  collinear_ok q0 q1 q2 q3 B = true ->
+  exists lam, 0 <= lam /\ lam <= 1 /\ dist2 (cubeB q0 q1 q2 q3 sg) (lerp q0 q3 lam) <= B.
+Proof. exact collinear_piece_sound. Qed.
+Print Assumptions C03_collinear_piece_sound.
+
+(** circle arcs.  Sagitta lemma: a, b chord ends and p a circle point (all relative to the centre) in the cone of the
+    chord, every chord point at distance in [lo, hi] from the centre: p is within D >= max(r - lo, hi - r) of the chord *)
+Theorem C03_sagitta : forall ax ay bx by_ px_ py_ r lo hi D,
+  0 < r -> px_ * px_ + py_ * py_ == r * r ->
+  0 < ax * by_ - ay * bx -> 0 <= ax * py_ - ay * px_ -> 0 <= px_ * by_ - py_ * bx ->
+  0 <= hi -> 0 <= D -> r - D <= lo -> hi <= r + D ->
+  (forall lam, 0 <= lam -> lam <= 1 ->
+     (ax + (bx - ax) * lam) * (ax + (bx - ax) * lam) + (ay + (by_ - ay) * lam) * (ay + (by_ - ay) * lam) <= hi * hi) ->
+  (0 < lo -> forall lam, 0 <= lam -> lam <= 1 ->
+     lo * lo <= (ax + (bx - ax) * lam) * (ax + (bx - ax) * lam) + (ay + (by_ - ay) * lam) * (ay + (by_ - ay) * lam)) ->
+  exists lam, 0 <= lam /\ lam <= 1 /\
+    (px_ - (ax + (bx - ax) * lam)) * (px_ - (ax + (bx - ax) * lam)) + (py_ - (ay + (by_ - ay) * lam)) * (py_ - (ay + (by_ - ay) * lam)) <= D * D.
+Proof. exact sagitta. Qed.
+Print Assumptions C03_sagitta.
+
+(** an accepted circle-arc certificate (see [circle_cert_ok]): end points preserved, vertices within tol + slack outside
+    the circle, and either the circle is smaller than the tolerance band, or every chord stays in the annulus
+    [r - K tol, r + tol + slack] and EVERY circle point in the cone of two consecutive vertices (the arc between them)
+    is within max(K tol, tol + slack) of their chord *)
+Theorem C03_chk_flat_circle_sound : forall a vs tol K slack, 0 <= tol -> 0 <= slack ->
+  chk_flat_circle a vs tol K slack = true -> circle_cert_ok a vs tol K slack.
+Proof. exact chk_flat_circle_sound. Qed.
+Print Assumptions C03_chk_flat_circle_sound.
+
+(** x-monotone splitting: the accepted pieces re-join to the original curve and x is monotone on each piece *)
+Theorem C03_chk_xmonotone_quad_sound : forall p0 p1 p2 slack pieces ts, 0 <= slack ->
+  chk_xmonotone [p0; p1; p2] slack pieces ts = true ->
+  hd 1 ts == 0 /\ last ts 0 == 1 /\ length ts = S (length pieces) /\
+  Forall (fun x => let '(s, u, pc) := x in s < u /\
+            exists q0 q1 q2, pc = [q0; q1; q2] /\
+              (forall sg, 0 <= sg -> sg <= 1 -> closeP (quadB p0 p1 p2 (s + sg * (u - s))) (quadB q0 q1 q2 sg) slack) /\
+              xmono_on (2 * slack) (fun sg => px (quadB q0 q1 q2 sg)))
+         (segs ts pieces).
+Proof. exact chk_xmonotone_quad_sound. Qed.
+Print Assumptions C03_chk_xmonotone_quad_sound.
+
+Theorem C03_chk_xmonotone_cube_sound : forall p0 p1 p2 p3 slack pieces ts, 0 <= slack ->
+  chk_xmonotone [p0; p1; p2; p3] slack pieces ts = true ->
+  hd 1 ts == 0 /\ last ts 0 == 1 /\ length ts = S (length pieces) /\
+  Forall (fun x => let '(s, u, pc) := x in s < u /\
+            exists q0 q1 q2 q3, pc = [q0; q1; q2; q3] /\
+              (forall sg, 0 <= sg -> sg <= 1 -> closeP (cubeB p0 p1 p2 p3 (s + sg * (u - s))) (cubeB q0 q1 q2 q3 sg) slack) /\
+              xmono_on (3 * slack) (fun sg => px (cubeB q0 q1 q2 q3 sg)))
+         (segs ts pieces).
+Proof. exact chk_xmonotone_cube_sound. Qed.
+Print Assumptions C03_chk_xmonotone_cube_sound.
+
+(** arc -> cubic: degree-6 hull lemma, and the accepted conic certificate bounds conic(B t) for ALL t in [0,1] *)
+Theorem C03_bern6_hull : forall lo g0 g1 g2 g3 g4 g5 g6 t, 0 <= t -> t <= 1 ->
+  lo <= g0 -> lo <= g1 -> lo <= g2 -> lo <= g3 -> lo <= g4 -> lo <= g5 -> lo <= g6 ->
+  lo <= bern6 [g0; g1; g2; g3; g4; g5; g6] t.
+Proof. exact bern6_hull_lo. Qed.
+Print Assumptions C03_bern6_hull.
+
+Theorem C03_chk_arc_cubic_sound : forall e eps n p0 p1 p2 p3, (0 < n)%nat ->
+  chk_arc_cubic e eps n [p0; p1; p2; p3] = true ->
+  forall t, 0 <= t -> t <= 1 ->
+    1 - eps <= conic e (cubeB p0 p1 p2 p3 t) /\ conic e (cubeB p0 p1 p2 p3 t) <= 1 + eps.
+Proof. exact chk_arc_cubic_sound. Qed.
+Print Assumptions C03_chk_arc_cubic_sound.
